@@ -194,7 +194,7 @@ func Checks() map[string]*simcore.Check {
 			Assumptions: []string{
 				"a reader parked in a SimKV gate holds the disk layer's read lock, so flattening never overlaps a point read in the decided schedule; the stale-layer fallback of reader.AccountRLP/Storage and lookup.addLayer/removeLayer goroutines have no seam and are only perturbed (GOMAXPROCS)",
 				"states handed to Update are unique per transition (an account carries the transition salt); a root that already has a place in the flattened history is never re-added (root -> id must stay unique by the database's contract)",
-				"an error of a held reader is accepted when any tree-changing operation overlapped its lifetime; values, when returned, must always be the requested state's",
+				"an error of a held point reader or reader-actor sweep is accepted only when its own root was flattened into the disk layer during its lifetime (the captured layer object then hangs off the stale disk layer); iterators may fail whenever a tree-changing operation overlapped; values, when returned, must always be the requested state's",
 			},
 			Components: simcore.Components{Real: realComponents, Stub: stubComponents},
 			Perturbed:  []string{"lookup add/remove worker goroutines", "interleavings between two KV gates of goroutines sharing memory", "map iteration order inside batches"},
